@@ -107,15 +107,60 @@ func runC02(c *Ctx) {
 	}
 	// the clock compared is the ensure time (one timeNow() reading before the loop)
 	okClock := false
-	for _, bc := range CallSites(ens, before) {
+	beforeCalls := CallSites(ens, before)
+	if len(beforeCalls) == 0 {
+		// the comparison may sit in a local closure or helper of Ensure (captured variables are looked through)
+		for _, hc := range localCalls(ens) {
+			beforeCalls = append(beforeCalls, CallSites(hc.h, before)...)
+		}
+	}
+	for _, bc := range beforeCalls {
 		if VRes(0, ViaGlobal(P.Global("overlord/state.timeNow")))(bc.Common().Args[0]) {
 			okClock = true
 		}
 	}
-	c.Check(okClock, "overlord/state.(*TaskRunner).Ensure#clock", ens.Pos(), "the schedule is compared with the timeNow() reading of this Ensure pass", "the schedule comparison no longer uses the pass's timeNow() reading")
+	if len(beforeCalls) == 0 {
+		c.Undecided("overlord/state.(*TaskRunner).Ensure#clock", ens.Pos(), "no comparison of a task's scheduled time found in Ensure itself (moved behind a call or closure? the rule cannot see it)")
+	} else {
+		c.Check(okClock, "overlord/state.(*TaskRunner).Ensure#clock", ens.Pos(), "the schedule is compared with the timeNow() reading of this Ensure pass", "the schedule comparison no longer uses the pass's timeNow() reading")
+	}
 	// blocked loop
 	bl := LoopsOver(ens, VField(fBlocked))
-	if len(bl) != 1 {
+	blockedViaHelper := false
+	if len(bl) == 0 {
+		// the predicate loop as a boolean helper: if r.isBlocked(t, running) { continue }
+		for _, hc := range localCalls(ens) {
+			hl := LoopsOver(hc.h, VField(fBlocked))
+			obj, isF := hc.h.Object().(*types.Func)
+			if len(hl) != 1 || hc.cc.Parent() != ens || !isF || hc.h.Signature.Results().Len() != 1 {
+				continue
+			}
+			blockedViaHelper = true
+			c.touch(hc.h)
+			rl := hl[0]
+			pred := DynCallOf(VIs(rl.Elem))
+			c.LatchGated("overlord/state.(*TaskRunner).Ensure#blocked-loop", rl, []Clause{{TrueRes("!blocked(t, running)", false, 0, pred)}})
+			nf := 0
+			for _, lf := range ReturnLeaves(hc.h, 0) {
+				if bv, isC := ConstBool(lf.Val); isC && !bv {
+					nf++
+					c.ThroughLoop(fmt.Sprintf("overlord/state.(*TaskRunner).Ensure#not-blocked-only-after-all-predicates#%d", nf), rl, lf)
+				} else if !isC {
+					c.Undecided("overlord/state.(*TaskRunner).Ensure#blocked-helper-verdict", lf.Pos(), "the helper returns a computed value")
+				}
+			}
+			c.Guarded("overlord/state.(*TaskRunner).Ensure#run-after-blocked-loop", ens, rc, []Clause{{TrueRes("!"+hc.h.Name()+"(t, running)", false, 0, ToFn(obj))}}, &GOpt{From: from})
+			liftCtx = append(liftCtx, liftFrame{hc.h, hc.cc})
+			for _, pc := range CallsMatching(hc.h, pred) {
+				a := pc.Common().Args
+				c.Check(len(a) == 2 && isT(a[0]), "overlord/state.(*TaskRunner).Ensure#blocked-args", pc.Pos(), "each predicate is asked about the candidate task", "blocked predicates are not asked about the task that is about to run")
+			}
+			liftCtx = liftCtx[:len(liftCtx)-1]
+		}
+	}
+	if blockedViaHelper {
+		// decided above
+	} else if len(bl) != 1 {
 		c.Undecided("overlord/state.(*TaskRunner).Ensure#blocked-loop", ens.Pos(), fmt.Sprintf("expected one loop over r.blocked, found %d", len(bl)))
 	} else {
 		rl := bl[0]
@@ -147,7 +192,55 @@ func runC02(c *Ctx) {
 	mw := P.Func("overlord/state.mustWait")
 	waitTasks := P.FuncObj("overlord/state.(*Task).WaitTasks")
 	loops := LoopsOver(mw, VRes(0, RecvWhere(ToFn(waitTasks), VParam(mw, 0))))
-	if len(loops) != 1 {
+	viaHelper := false
+	if len(loops) == 0 {
+		// the scan as a predicate of its own: case DoStatus: return !allDone(t.WaitTasks())
+		for _, b := range mw.Blocks {
+			for _, in := range b.Instrs {
+				cc, ok := in.(ssa.CallInstruction)
+				if !ok {
+					continue
+				}
+				h := cc.Common().StaticCallee()
+				if h == nil || h.Pkg != mw.Pkg || len(h.Blocks) == 0 || len(cc.Common().Args) != 1 || !VRes(0, RecvWhere(ToFn(waitTasks), VParam(mw, 0)))(cc.Common().Args[0]) {
+					continue
+				}
+				hl := LoopsOver(h, VParam(h, 0))
+				if len(hl) != 1 {
+					continue
+				}
+				viaHelper = true
+				c.touch(h)
+				rl := hl[0]
+				done := Cmp("wt.Status()==Done", VRes(0, RecvWhere(ToFn(statusObj), VIs(rl.Elem))), token.EQL, VConstObj(P.Const("overlord/state.DoneStatus")))
+				c.LatchGated("overlord/state.mustWait#wait-loop", rl, []Clause{{done}})
+				nt := 0
+				for _, lf := range ReturnLeaves(h, 0) {
+					if bv, isC := ConstBool(lf.Val); isC && bv {
+						nt++
+						c.ThroughLoop(fmt.Sprintf("overlord/state.mustWait#all-done-only-after-wait-loop#%d", nt), rl, lf)
+					} else if !isC {
+						c.Undecided("overlord/state.mustWait#helper-verdict", lf.Pos(), "the helper returns a computed value")
+					}
+				}
+				// mustWait's answer for a Do task is the negation of that predicate
+				doArm := Cmp("t.Status()==Do", VRes(0, RecvWhere(ToFn(statusObj), VParam(mw, 0))), token.EQL, VConstObj(P.Const("overlord/state.DoStatus")))
+				c.Guarded("overlord/state.mustWait#wait-loop-arm", mw, cc.(ssa.Instruction), []Clause{{doArm}}, nil)
+				okNeg := false
+				for _, lf := range ReturnLeaves(mw, 0) {
+					if u, ok := lf.Val.(*ssa.UnOp); ok && u.Op == token.NOT {
+						if c2, _, isCall := CallResult(u.X); isCall && c2 == cc {
+							okNeg = true
+						}
+					}
+				}
+				c.Check(okNeg, "overlord/state.mustWait#false-after-wait-loop", cc.Pos(), "for a Do task mustWait answers !"+h.Name()+"(t.WaitTasks())", "for a Do task mustWait can answer false without having inspected all prerequisites")
+			}
+		}
+	}
+	if viaHelper {
+		// decided above
+	} else if len(loops) != 1 {
 		c.Undecided("overlord/state.mustWait#wait-loop", mw.Pos(), fmt.Sprintf("expected one loop over t.WaitTasks(), found %d", len(loops)))
 	} else {
 		rl := loops[0]
